@@ -36,6 +36,7 @@ import (
 	"strconv"
 	"strings"
 	"time"
+	"unicode/utf16"
 	"unicode/utf8"
 )
 
@@ -370,6 +371,11 @@ func filterEscapejs(in *Value, param *Value) (*Value, *Error) {
 
 		if (c >= 'a' && c <= 'z') || (c >= 'A' && c <= 'Z') || c == ' ' || c == '/' {
 			b.WriteRune(c)
+		} else if c > 0xFFFF {
+			// JavaScript's \uXXXX takes exactly four hex digits: runes outside
+			// the BMP are written as a UTF-16 surrogate pair.
+			r1, r2 := utf16.EncodeRune(c)
+			b.WriteString(fmt.Sprintf(`\u%04X\u%04X`, r1, r2))
 		} else {
 			b.WriteString(fmt.Sprintf(`\u%04X`, c))
 		}
